@@ -60,6 +60,9 @@ impl<'a> Sim<'a> {
                 if self.t.chance(1, 3) {
                     self.probe_second_room(n);
                 }
+                if self.t.chance(1, 2) {
+                    self.probe_synthetic_room(n);
+                }
                 self.probe_subsets(n);
                 for _ in 0..k.div_ceil(4) {
                     self.probe_toposort(n);
@@ -597,6 +600,161 @@ impl<'a> Sim<'a> {
         self.bump("probe.second-room");
         self.flag("c06.second-room");
         self.resolve_on(n, &[a, b], "second-room");
+        for idd in inserted {
+            self.servers[n].dag.remove(&idd);
+            self.servers[n].have.remove(&idd);
+        }
+    }
+
+    /// A synthetic second room: a random walk over legal state events with arbitrary forks (every
+    /// event's state-before and authorisation are computed by the reference models), resolved in
+    /// random subsets through the same oracles as everything else. Complements the federation
+    /// histories with DAG shapes they reach rarely (sibling power-level events, deep forks, ties).
+    pub fn probe_synthetic_room(&mut self, n: usize) {
+        let v = self.cfg.v;
+        let host = *self.t.pick(&["synth.example", "synth.test:8448", "10.0.0.9"]);
+        let room = format!("!synth{}:{host}", self.t.below(50));
+        let tag = self.t.below(1_000_000);
+        let users: Vec<String> = vec![format!("@zed:{host}"), format!("@amy:{}", self.servers[n].name), format!("@bob:{host}"), format!("@cat:{}", self.servers[n].name)];
+        let levels = [100i64, if self.t.chance(2, 3) { 100 } else { 50 }, 50, 0];
+        let mut evs: Vec<Rc<Ev>> = Vec::new();
+        let mut after: Vec<Rc<StateSet>> = Vec::new();
+        let mut dag: rsr2::Dag = BTreeMap::new();
+        let mut counter = 0usize;
+        let mut next_id = |c: &mut usize| {
+            *c += 1;
+            if v <= 2 {
+                format!("$s{tag}e{c}:{host}")
+            } else {
+                format!("$s{tag}e{c}")
+            }
+        };
+        let sel_ids = |ty: &str, sender: &str, sk: Option<&str>, content: &J, st: &StateSet| -> Option<Vec<String>> {
+            match rauth::select(ty, sender, sk, content, v) {
+                rauth::Selection::Ok(keys) => Some(keys.iter().filter_map(|k| st.get(k).cloned()).collect()),
+                _ => None,
+            }
+        };
+        // linear prefix: create, creator join, power levels, join rules, joins
+        let mut ts = 100i64;
+        let mut push = |ty: &str, sender: &str, sk: Option<&str>, content: J, prev: Vec<usize>, evs: &mut Vec<Rc<Ev>>, after: &mut Vec<Rc<StateSet>>, dag: &mut rsr2::Dag, ts: i64, c: &mut usize| -> bool {
+            let before: StateSet = match prev.len() {
+                0 => StateSet::new(),
+                1 => (*after[prev[0]]).clone(),
+                _ => {
+                    let sets: Vec<StateSet> = prev.iter().map(|&i| (*after[i]).clone()).collect();
+                    let mut st = rsr2::Stats::default();
+                    match rsr2::resolve(dag, &sets, v, &mut st, &mut |_, _, _| {}) {
+                        rsr2::Resolved::Ok(s) => s,
+                        rsr2::Resolved::Undecided(_) => return false,
+                    }
+                }
+            };
+            let Some(auth) = sel_ids(ty, sender, sk, &content, &before) else { return false };
+            let e = Rc::new(Ev { id: next_id(c), room_id: room.clone(), sender: sender.to_string(), ty: ty.to_string(), state_key: sk.map(|x| x.to_string()), content, ts, prev: prev.iter().map(|&i| evs[i].id.clone()).collect(), auth, redacts: None });
+            let look = |t: &str, k: &str| before.get(&key(t, k)).and_then(|id| dag.get(id)).cloned();
+            if rauth::auth(&e, &rauth::Ctx { v, state: &look }) != rauth::Verdict::Allow {
+                return false;
+            }
+            let st = if e.state_key.is_some() { rsr2::apply(&before, &e) } else { before };
+            dag.insert(e.id.clone(), e.clone());
+            evs.push(e);
+            after.push(Rc::new(st));
+            true
+        };
+        let mut cc = BTreeMap::new();
+        if v <= 10 {
+            cc.insert("creator".to_string(), J::Str(users[0].clone()));
+        }
+        cc.insert("room_version".to_string(), J::Str(v.to_string()));
+        if !push("m.room.create", &users[0], Some(""), J::Obj(cc), vec![], &mut evs, &mut after, &mut dag, ts, &mut counter) {
+            return;
+        }
+        let mut last = |evs: &Vec<Rc<Ev>>| vec![evs.len() - 1];
+        let p = last(&evs);
+        push("m.room.member", &users[0], Some(&users[0]), o(vec![("membership", J::s("join"))]), p, &mut evs, &mut after, &mut dag, ts + 1, &mut counter);
+        let pl_users: Vec<(&str, J)> = users.iter().zip(levels.iter()).map(|(u, l)| (u.as_str(), J::Int(*l))).collect();
+        let p = last(&evs);
+        push("m.room.power_levels", &users[0], Some(""), o(vec![("users", o(pl_users))]), p, &mut evs, &mut after, &mut dag, ts + 2, &mut counter);
+        let p = last(&evs);
+        push("m.room.join_rules", &users[0], Some(""), o(vec![("join_rule", J::s("public"))]), p, &mut evs, &mut after, &mut dag, ts + 3, &mut counter);
+        for u in users.iter().skip(1) {
+            let p = last(&evs);
+            push("m.room.member", u, Some(u), o(vec![("membership", J::s("join"))]), p, &mut evs, &mut after, &mut dag, ts + 4, &mut counter);
+        }
+        ts += 10;
+        // random walk with forks
+        let steps = self.t.range(8, 24);
+        for _ in 0..steps {
+            let nprev = if self.t.chance(1, 4) { 2 } else { 1 };
+            let window = evs.len().min(10);
+            let mut prev: Vec<usize> = Vec::new();
+            for _ in 0..nprev {
+                let i = evs.len() - 1 - self.t.index(window);
+                if !prev.contains(&i) {
+                    prev.push(i);
+                }
+            }
+            let actor = self.t.pick(&users).clone();
+            let target = self.t.pick(&users).clone();
+            // frozen clocks: timestamps come from a small set so that ties are common
+            let tsx = ts + *self.t.pick(&[0i64, 0, 1, 2, 5]);
+            let (ty, sk, content): (&str, Option<String>, J) = match self.t.below(10) {
+                0..=2 => {
+                    // power levels: small edits that keep admins admins
+                    let base_state = (*after[prev[0]]).clone();
+                    let cur = base_state.get(&key("m.room.power_levels", "")).and_then(|id| dag.get(id)).map(|e| e.content.clone()).unwrap_or_else(J::obj);
+                    let mut m = cur.as_obj().cloned().unwrap_or_default();
+                    if self.t.chance(1, 2) {
+                        let mut ev = m.get("events").and_then(|x| x.as_obj()).cloned().unwrap_or_default();
+                        ev.insert((*self.t.pick(&["m.room.topic", "m.room.name"])).to_string(), J::Int(*self.t.pick(&[0i64, 50, 100])));
+                        m.insert("events".to_string(), J::Obj(ev));
+                    } else {
+                        let mut us = m.get("users").and_then(|x| x.as_obj()).cloned().unwrap_or_default();
+                        us.insert(users[2 + self.t.index(2)].clone(), J::Int(*self.t.pick(&[0i64, 25, 50, 75])));
+                        m.insert("users".to_string(), J::Obj(us));
+                    }
+                    ("m.room.power_levels", Some(String::new()), J::Obj(m))
+                }
+                3 | 4 => ("m.room.topic", Some(String::new()), o(vec![("topic", J::Str(format!("t{}", self.t.below(1000))))])),
+                5 => ("m.room.name", Some(String::new()), o(vec![("name", J::Str(format!("n{}", self.t.below(1000))))])),
+                6 => ("m.room.member", Some(actor.clone()), o(vec![("membership", J::s(*self.t.pick(&["leave", "join"])))])),
+                7 => ("m.room.member", Some(target.clone()), o(vec![("membership", J::s(*self.t.pick(&["leave", "ban", "invite"])))])),
+                8 => ("m.room.join_rules", Some(String::new()), o(vec![("join_rule", J::s(*self.t.pick(&["public", "invite"])))])),
+                _ => ("org.x.state", Some((*self.t.pick(&["", "k"])).to_string()), o(vec![("v", J::Int(self.t.below(100) as i64))])),
+            };
+            if push(ty, &actor, sk.as_deref(), content, prev, &mut evs, &mut after, &mut dag, tsx, &mut counter) {
+                ts += 1;
+            }
+        }
+        if evs.len() < 10 {
+            return;
+        }
+        // hand the room to the node for the duration of the probe
+        let mut inserted = Vec::new();
+        for e in &evs {
+            let Ok(pdu) = conv::pdu_from_ev(e) else { continue };
+            self.servers[n].dag.insert(e.id.clone(), e.clone());
+            self.servers[n].have.insert(e.id.clone(), crate::sim::NodeEv { ev: e.clone(), pdu: Some(pdu), accepted: true, state_after: Rc::new(StateSet::new()), depth: 1 });
+            inserted.push(e.id.clone());
+        }
+        self.bump("probe.synthetic-rooms");
+        self.flag("c06.second-room");
+        let rounds = self.t.range(3, 6);
+        for _ in 0..rounds {
+            if self.stop() {
+                break;
+            }
+            let k = 2 + self.t.below(2) as usize;
+            let mut sets: Vec<Rc<StateSet>> = Vec::new();
+            for _ in 0..k {
+                // biased towards late events: their states carry the forks
+                let i = if self.t.chance(2, 3) { after.len() - 1 - self.t.index(after.len().min(8)) } else { self.t.index(after.len()) };
+                sets.push(after[i].clone());
+            }
+            self.bump("probe.synthetic-resolutions");
+            self.resolve_on(n, &sets, "synthetic-room");
+        }
         for idd in inserted {
             self.servers[n].dag.remove(&idd);
             self.servers[n].have.remove(&idd);
